@@ -681,3 +681,89 @@ Section AlphaP.
     alpha_value mask nbits bpc a (default_alpha_tpl false) pid c' i.
   Proof. reflexivity. Qed.
 End AlphaP.
+
+(* ================================================================ a whole process *)
+
+Lemma NoDup_map_inj_on {A B} (f : A -> B) : forall l,
+  NoDup l -> (forall x y, In x l -> In y l -> f x = f y -> x = y) -> NoDup (map f l).
+Proof.
+  induction l as [|a l IH]; intros Hnd Hinj; cbn [map]; [constructor|].
+  inversion Hnd as [|? ? Ha Hl]; subst. constructor.
+  - intros Hin. apply in_map_iff in Hin. destruct Hin as (y & Hy & Hyl).
+    assert (a = y) by (apply Hinj; cbn; auto). subst y. contradiction.
+  - apply IH; auto. intros x y Hx Hy. apply Hinj; cbn; auto.
+Qed.
+
+Lemma NoDup_map_In_inj {A B} (f : A -> B) : forall l x y,
+  NoDup (map f l) -> In x l -> In y l -> f x = f y -> x = y.
+Proof.
+  induction l as [|a l IH]; intros x y Hnd Hx Hy He; [contradiction|].
+  cbn [map] in Hnd. inversion Hnd as [|? ? Ha Hl]; subst.
+  destruct Hx as [->|Hx], Hy as [->|Hy]; auto.
+  - exfalso. apply Ha. rewrite He. apply in_map. exact Hy.
+  - exfalso. apply Ha. rewrite <- He. apply in_map. exact Hx.
+Qed.
+
+Lemma NoDup_of_injective_keys {K V} (F : K -> result V) keys vs :
+  NoDup keys ->
+  (forall x y v, In x keys -> In y keys -> F x = Ok v -> F y = Ok v -> x = y) ->
+  map F keys = map Ok vs -> NoDup vs.
+Proof.
+  intros Hnd Hinj He. apply (NoDup_map_inv (@Ok V)). rewrite <- He.
+  apply NoDup_map_inj_on; auto. intros x y Hx Hy Hxy.
+  assert (Hin : In (F x) (map Ok vs)) by (rewrite <- He; apply in_map; exact Hx).
+  apply in_map_iff in Hin. destruct Hin as (v & Hv & _).
+  apply (Hinj x y v); congruence.
+Qed.
+
+Lemma NoDup_flat_pairs {G I} (h : G -> list I) : forall gens,
+  NoDup gens -> (forall g, NoDup (h g)) ->
+  NoDup (flat_map (fun g => map (pair g) (h g)) gens).
+Proof.
+  induction gens as [|g gens IH]; intros Hnd Hh; cbn [flat_map]; [constructor|].
+  inversion Hnd as [|? ? Hg Hgens]; subst. apply NoDup_app_intro.
+  - apply NoDup_map_inj_on; [apply Hh|]. intros x y _ _ H. injection H. auto.
+  - apply IH; auto.
+  - intros [g0 i0] H1 H2. apply in_map_iff in H1. destruct H1 as (i & Hi & _).
+    injection Hi as <- <-. apply in_flat_map in H2. destruct H2 as (g' & Hg' & Hin).
+    apply in_map_iff in Hin. destruct Hin as (i' & Hi' & _). injection Hi' as -> _. contradiction.
+Qed.
+
+Lemma map_flat_map {A B C} (F : B -> C) (k : A -> list B) : forall l,
+  map F (flat_map k l) = flat_map (fun a => map F (k a)) l.
+Proof.
+  induction l as [|a l IH]; cbn [flat_map map]; [reflexivity|]. rewrite map_app, IH. reflexivity.
+Qed.
+
+Section ProcessP.
+  Variable mask : Z -> Z -> Z.
+  Variable nbits : Z -> Z.
+
+  Definition dkey_value (k : dgen * Z) : result Z :=
+    num_value mask nbits (default_numeric_tpl (d_big (fst k))) (d_pid (fst k)) (d_ctx (fst k))
+              (snd k) true.
+
+  Lemma process_draws_keys gens :
+    process_draws mask nbits gens =
+    map dkey_value (flat_map (fun g => map (pair g) (Zseq (d_start g) (d_n g))) gens).
+  Proof.
+    unfold process_draws. rewrite map_flat_map. apply flat_map_ext. intros g.
+    unfold dgen_draws. rewrite map_map. reflexivity.
+  Qed.
+
+  (* all values of all default numeric generators of a process are pairwise distinct *)
+  Lemma pipeline_numeric_NoDup gens vs :
+    NoDup (map d_ctx gens) -> process_draws mask nbits gens = map Ok vs -> NoDup vs.
+  Proof.
+    intros Hctx He. rewrite process_draws_keys in He.
+    eapply NoDup_of_injective_keys; [| |exact He].
+    - apply NoDup_flat_pairs; [eapply NoDup_map_inv; eauto|]. intros g. apply Zseq_NoDup.
+    - intros [g i] [g' i'] v Hx Hy Hv Hv'. unfold dkey_value in Hv, Hv'. cbn [fst snd] in Hv, Hv'.
+      destruct (pipeline_numeric_pair mask nbits _ _ _ _ _ _ _ _ _ Hv Hv') as [Hc ->].
+      f_equal. apply (NoDup_map_In_inj d_ctx gens); auto.
+      + apply in_flat_map in Hx. destruct Hx as (g0 & Hg0 & Hin).
+        apply in_map_iff in Hin. destruct Hin as (? & Hp & _). injection Hp as -> _. exact Hg0.
+      + apply in_flat_map in Hy. destruct Hy as (g0 & Hg0 & Hin).
+        apply in_map_iff in Hin. destruct Hin as (? & Hp & _). injection Hp as -> _. exact Hg0.
+  Qed.
+End ProcessP.
